@@ -2450,9 +2450,9 @@ sexp sexp_write_one (sexp ctx, sexp obj, sexp out, sexp_sint_t bound) {
       sexp_write_string(ctx, "#<SC ", out);
       sexp_write(ctx, sexp_make_fixnum(obj), out);
       sexp_write_char(ctx, ' ', out);
-      sexp_write(ctx, sexp_synclo_expr(obj), out);
+      sexp_write_one(ctx, sexp_synclo_expr(obj), out, bound+1);
       sexp_write_char(ctx, ' ', out);
-      sexp_write(ctx, sexp_synclo_rename(obj), out);
+      sexp_write_one(ctx, sexp_synclo_rename(obj), out, bound+1);
       sexp_write_char(ctx, '>', out);
       break;
     default:
